@@ -3,6 +3,7 @@ package fractal
 import (
 	"context"
 	"fmt"
+	"io"
 	"sync"
 	"sync/atomic"
 	"time"
@@ -191,13 +192,20 @@ func (ls *LocalSuperior) RemoveTask(id uuid.UUID) {
 
 func (ls *LocalSuperior) submitCollectorMsg(ctx context.Context, resp *CollectorMsg) (err error) {
 	ls.taskCacheLock.Lock()
-	defer ls.taskCacheLock.Unlock()
 	v, ok := ls.taskCache.Get(resp.Msg.ID())
+	ls.taskCacheLock.Unlock()
 	if !ok {
 		// TODO: maybe return error
 		return nil
 	}
 	ch := v.(chan *CollectorMsg)
+	// The waiter may be slow: waiting for it with taskCacheLock held would block
+	// AddTask and RemoveTask. RemoveTask closes ch, which releases a blocked sender.
+	defer func() {
+		if recover() != nil {
+			err = io.ErrClosedPipe
+		}
+	}()
 	select {
 	case <-ctx.Done():
 		err = ctx.Err()
